@@ -269,7 +269,7 @@ PROPS = {
         'assumptions': ['partial: real serial timing; a read takes 1..T ticks'],
     },
     'C19': {
-        'source_transfer': ['TransferRender'],
+        'source_transfer': ['TransferRender', 'TransferKeyStr'],
         'source_tie': ['Render', 'Str', 'CfgKeyData', 'KeyStr'],
         'jobs': [{'component': 'render', 'profile': 'render', 'quick': 90, 'thorough': 300},
                  {'component': 'level', 'profile': 'level', 'quick': 1200, 'thorough': 3000, 'project': 'result+sent'},
